@@ -20,4 +20,4 @@ def run(res, only=None):
 
 
 def replay(res, path, only=None):
-    return core.generic_replay(res, path, "tok")
+    return core.replay_dispatch(res, path, "tok")
